@@ -250,8 +250,41 @@ def f_store_durability_untouched(sess, tier):
          "%d modules inspected; %s" % (n, "; ".join(bad) or "no PRAGMA, no connection-level listener"))
 
 
+def f_exact_column_types(sess, tier):
+    """C05 reads a stored column back as the value that was written.  The executor models a column as a
+    cell that returns what was put in; that is SQLAlchemy/SQLite behaviour for integer, text, blob,
+    boolean and the repository's own decorated types, and it is NOT for the floating / fixed-point
+    types, which on SQLite pass every value through a double.  Checked over kmip/pie: no Column and no
+    TypeDecorator impl is declared with Numeric, Float, REAL, DECIMAL or Double."""
+    import ast
+    import os
+    from . import extract
+    LOSSY = {'Numeric', 'Float', 'REAL', 'DECIMAL', 'Double', 'FLOAT', 'NUMERIC', 'DOUBLE', 'DOUBLE_PRECISION'}
+    bad, n = [], 0
+    for f in ('kmip/pie/objects.py', 'kmip/pie/sqltypes.py'):
+        p = os.path.join(extract.repo(), f)
+        tree = ast.parse(open(p).read())
+        for node in ast.walk(tree):
+            tys = []
+            if isinstance(node, ast.Call) and (getattr(node.func, 'attr', None) == 'Column' or
+                                               getattr(node.func, 'id', None) == 'Column'):
+                n += 1
+                tys = [a for a in list(node.args) + [k.value for k in node.keywords if k.arg == 'type_']
+                       if not (isinstance(a, ast.Constant) and isinstance(a.value, str))]
+            elif isinstance(node, ast.Assign) and any(getattr(t, 'id', None) == 'impl' for t in node.targets):
+                n += 1
+                tys = [node.value]
+            for ty in tys:
+                for sub in ast.walk(ty):
+                    nm = getattr(sub, 'attr', None) or getattr(sub, 'id', None)
+                    if nm in LOSSY:
+                        bad.append("%s:%d %s" % (f, node.lineno, ast.unparse(node)[:90]))
+    _rec(sess, "fact:C05/no-stored-column-is-of-a-floating-or-fixed-point-type", not bad and n > 0,
+         "%d column / impl declarations inspected; %s" % (n, "; ".join(bad) or "none is Numeric/Float/REAL/DECIMAL/Double"))
+
+
 def units(names, ctx):
-    table = {"store_durability": f_store_durability_untouched, "no_mutable_defaults": f_no_mutable_defaults, "wrappers_truthy": f_wrappers_truthy, "tag_blocks": f_tag_blocks, "crypto_wrapped": f_crypto_wrapped, "lock": f_lock, "state_frame": f_state_frame, "autoincrement": f_autoincrement,
+    table = {"exact_column_types": f_exact_column_types, "store_durability": f_store_durability_untouched, "no_mutable_defaults": f_no_mutable_defaults, "wrappers_truthy": f_wrappers_truthy, "tag_blocks": f_tag_blocks, "crypto_wrapped": f_crypto_wrapped, "lock": f_lock, "state_frame": f_state_frame, "autoincrement": f_autoincrement,
              "versions": f_versions}
     out = []
     for nm in names:
